@@ -281,7 +281,11 @@ Inductive op :=
 | Clear (s : Z)               (* MutableSet.clear: pop until KeyError *)
 | IndexOf (s a : Z)           (* Sequence.index: first i with self[i] is value; ValueError *)
 | Count (s a : Z)             (* Sequence.count *)
-| Reversed (s : Z).           (* Sequence.__reversed__: self[i] for i = len-1 .. 0 *)
+| Reversed (s : Z)            (* Sequence.__reversed__: self[i] for i = len-1 .. 0 *)
+(* GroupBy helper methods (agent.py:604-683) *)
+| GroupCount (s : Z) (k : keyf)                      (* s.groupby(k).count() *)
+| GroupAgg (s : Z) (k : keyf) (n : Z) (f : aggf)     (* s.groupby(k).agg("a<n>", f) *)
+| GroupDoSet (s : Z) (k : keyf) (n v : Z).           (* s.groupby(k).do("set", "a<n>", v) *)
 
 Inductive result :=
 | ROk (vals : list Z)
@@ -314,6 +318,39 @@ Fixpoint index_of (a : id) (m : list id) (i : Z) : option Z :=
   end.
 
 Definition count_of (a : id) (m : list id) : Z := zlen (filter (fun x => x =? a) m).
+
+(* func(values): None = ValueError (min/max of an empty list) *)
+Definition agg_apply (f : aggf) (vals : list Z) : option Z :=
+  match f, vals with
+  | FSum, _ => Some (zsum vals)
+  | FLen, _ => Some (zlen vals)
+  | FMin, [] => None
+  | FMax, [] => None
+  | FMin, x :: r => Some (zmin x r)
+  | FMax, x :: r => Some (zmax x r)
+  end.
+
+(* {name: func([getattr(agent, attr) for agent in group]) for name, group in groups.items()} *)
+Fixpoint group_agg (t : table) (n : Z) (f : aggf) (g : list (Z * list id)) : list Z + Z :=
+  match g with
+  | [] => inl []
+  | (k, mem) :: rest =>
+      match all_some (fun a => attr_of t a n) mem with
+      | None => inr E_ATTR
+      | Some vals =>
+          match agg_apply f vals with
+          | None => inr E_VALUE
+          | Some v => match group_agg t n f rest with
+                      | inl r => inl (k :: v :: r)
+                      | inr e => inr e
+                      end
+          end
+      end
+  end.
+
+(* for group in groups.values(): group.set(name, value) *)
+Definition group_do_set (n v : Z) (g : list (Z * list id)) (t : table) : table :=
+  fold_left (fun t' e => set_attr_all (snd e) n v t') g t.
 
 Definition step (st : state) (o : op) : state * result :=
   let t := st_tbl st in
@@ -489,6 +526,41 @@ Definition step (st : state) (o : op) : state * result :=
       match getm s with
       | None => (st, RSkip)
       | Some m => (st, ROk (rev m))
+      end
+  | GroupCount s k =>
+      match getm s with
+      | None => (st, RSkip)
+      | Some m =>
+          match all_some (eval_key t k) m with
+          | None => (st, RErr E_ATTR)
+          | Some _ =>
+              let g := groupby_members (key_or0 t k) m in
+              (st, ROk (zlen g :: flat_map (fun e => [fst e; zlen (snd e)]) g))
+          end
+      end
+  | GroupAgg s k n f =>
+      match getm s with
+      | None => (st, RSkip)
+      | Some m =>
+          match all_some (eval_key t k) m with
+          | None => (st, RErr E_ATTR)
+          | Some _ =>
+              match group_agg t n f (groupby_members (key_or0 t k) m) with
+              | inl r => (st, ROk r)
+              | inr e => (st, RErr e)
+              end
+          end
+      end
+  | GroupDoSet s k n v =>
+      match getm s with
+      | None => (st, RSkip)
+      | Some m =>
+          match all_some (eval_key t k) m with
+          | None => (st, RErr E_ATTR)
+          | Some _ =>
+              ({| st_tbl := group_do_set n v (groupby_members (key_or0 t k) m) t; st_pool := st_pool st |},
+               ROk [1])
+          end
       end
   end.
 
